@@ -359,8 +359,12 @@ impl Shape for CircleSegment {
     }
 
     fn winding(&self, pt: Point) -> i32 {
-        let angle = (pt - self.center).atan2();
-        if angle < self.start_angle || angle > self.start_angle + self.sweep_angle {
+        // Angle of the point relative to the start of the segment, in the direction of the
+        // sweep, reduced to [0, 2π).
+        let angle = ((pt - self.center).atan2() - self.start_angle) * self.sweep_angle.signum();
+        let angle = angle % (2.0 * PI);
+        let angle = if angle < 0.0 { angle + 2.0 * PI } else { angle };
+        if angle > self.sweep_angle.abs() {
             return 0;
         }
         let dist2 = (pt - self.center).hypot2();
